@@ -247,7 +247,7 @@ def replay_cli(prop, path):
 
 QUICK_RUNS = {
     "C04": 1200, "C08": 800, "C09": 1400, "C10": 2400, "C16": 1400,
-    "C17": 2400, "C12": 1200, "C13": 2400, "C14": 1200,
+    "C17": 2400, "C12": 1200, "C13": 5000, "C14": 1200,
 }
 CHUNK = {"C12": 20}
 
